@@ -8,6 +8,9 @@
 EXTENDS XtChunker, Json, IOUtils, TLCExt
 
 Rec == ndJsonDeserialize(IOEnv.TRACE)
+AllDevs == {"libyaml_scanner_leak_on_panic"}
+SplitNames(str) == {SubSeq(str, i, j) : i \in 1..Len(str), j \in 1..Len(str)}
+Devs == IF "XT_DEVS" \in DOMAIN IOEnv THEN AllDevs \cap SplitNames(IOEnv.XT_DEVS) ELSE {}
 VARIABLES l, outcome        \* outcome of the run being validated: "ok" | "err" | "panic"
 tvars == <<cvars, l, outcome>>
 
@@ -21,6 +24,13 @@ Fresh == parser \in {"none", "deleted"} /\ rstate \in {"none", "freed"} /\ event
 T_Run ==
   /\ Ev("run") /\ Fresh
   /\ Rec[l].outcome \in {"ok", "err", "panic"}           \* a crash of the recorder is not a behaviour
+  \* C17 "nor a leak": the live heap after the run equals the live heap before it (counting allocator).
+  \* Recorded deviation: when a panic unwinds out of the read handler (over-reporting reader), the scalar
+  \* buffers the LibYAML scanner was filling are lost - bounded by the input, unlike a leaked parser.
+  /\ \/ Rec[l].leaked = 0
+     \/ /\ Rec[l].outcome = "panic" /\ "libyaml_scanner_leak_on_panic" \in Devs
+        /\ Rec[l].leaked <= 4 * Rec[l].inlen + 1024
+        /\ PrintT(<<"DEVIATION", "libyaml_scanner_leak_on_panic", Rec[l].label>>)
   /\ outcome' = Rec[l].outcome
   /\ parser' = "none" /\ rstate' = "none" /\ event' = "none" /\ pc' = "idle"
   /\ bounce' = 0 /\ bufsize' = 0 /\ total' = 0 /\ capStart' = 0 /\ capLen' = 0 /\ copied' = -1 /\ fault' = "none"
